@@ -34,6 +34,25 @@ def load_corpus(prop_id):
     return cases
 
 
+def tier_cases(prop, tier, seed):
+    """The case set of a tier.  Generators know two sizes ("quick", "thorough"); where the larger one costs only
+    seconds it is what the quick tier runs (QUICK_LEVEL), and the thorough tier runs it for several seeds
+    (THOROUGH_SEEDS: the enumerated families repeat and are dropped, the random ones differ)."""
+    if tier == "quick":
+        return prop.cases(getattr(prop, "QUICK_LEVEL", "quick"), seed)
+    out, seen = [], set()
+    for k in range(getattr(prop, "THOROUGH_SEEDS", 1)):
+        for c in prop.cases("thorough", seed + 1000 * k):
+            key = "\n".join(c.ops)
+            if key in seen:
+                continue
+            seen.add(key)
+            if k:
+                c.cid = "s%d-%s" % (k, c.cid)
+            out.append(c)
+    return out
+
+
 def run_compare(prop, hbin, dbin, cases):
     impl = vf.run_sharded(hbin, cases)
     model = vf.run_sharded(dbin, cases)
@@ -158,13 +177,15 @@ def main():
     impl, model, diffs, cases = {}, {}, [], []
     tier_run = args.tier
     if hbin and driver_ok:
-        cases = load_corpus(pid) + prop.cases(args.tier, seed)
+        cases = load_corpus(pid) + tier_cases(prop, args.tier, seed)
         impl, model, diffs = run_compare(prop, hbin, vf.driver_path(prop.DRIVER), cases)
         spec_diffs = [d for d in diffs if d["kind"] == "spec"]
         if (problems or (diffs and not spec_diffs)) and args.tier == "quick":
             # an obligation or the correspondence is broken: search harder for a concrete failing input
             vf.log("searching the thorough case set for a failing input ...")
-            more = prop.cases("thorough", seed)
+            more = [c for c in prop.cases("thorough", seed + 7)]
+            for c in more:
+                c.cid = "search-" + c.cid
             i2, m2, d2 = run_compare(prop, hbin, vf.driver_path(prop.DRIVER), more)
             cases += more
             impl.update(i2)
